@@ -256,11 +256,13 @@ class Runner:
         suffix = ".pb" if playback else ""
         out = os.path.join(self.sc.logs, h.name + suffix + ".log")
         extra = ["-Z", "concrete-playback", "--concrete-playback=print"] if playback else []
-        cmd = limited(kani_cmd(h.name, tgt, extra), h.mem_kb(self.tier), h.timeout_s(self.tier))
-        wait_for_memory(h.mem_kb(self.tier) // 2)
+        # the playback run (trace generation) needs clearly more memory and time than the verdict run
+        mem_kb = h.mem_kb("thorough") if playback else h.mem_kb(self.tier)
+        tmo = 3 * h.timeout_s(self.tier) if playback else h.timeout_s(self.tier)
+        cmd = limited(kani_cmd(h.name, tgt, extra), mem_kb, tmo)
+        wait_for_memory(mem_kb // 2)
         t0 = time.time()
-        rc = sh(cmd, cwd=self.sc.crate, env={"RUSTFLAGS": RUSTFLAGS_KANI}, out=out,
-                timeout=h.timeout_s(self.tier) + 60)
+        rc = sh(cmd, cwd=self.sc.crate, env={"RUSTFLAGS": RUSTFLAGS_KANI}, out=out, timeout=tmo + 60)
         wall = time.time() - t0
         shutil.rmtree(tgt, ignore_errors=True)
         r = parse_kani_log(out)
